@@ -84,6 +84,9 @@ const (
 	kErrUDPHbh
 	kTCPE2e
 	kEchoRepHbh
+	kErrUDPCutPayload
+	kErrUDPCutBig
+	kErrCutSCION
 	numKinds
 )
 
@@ -93,7 +96,8 @@ var kindNames = [...]string{"udp", "tcp", "echo-reply", "traceroute-reply", "err
 	"err-header-short", "err-nothing-quoted", "err-quoting-udp-port0", "err-quoting-info-other",
 	"err-quoting-error", "err-quoting-echo-truncated", "err-quoting-tcp", "err-quoting-garbage",
 	"err-quoting-udp-truncated", "scmp-unknown-type", "udp-hbh", "udp-e2e", "udp-hbh-e2e",
-	"err-quoting-udp-hbh", "tcp-e2e", "echo-reply-hbh"}
+	"err-quoting-udp-hbh", "tcp-e2e", "echo-reply-hbh", "err-quoting-udp-payload-cut",
+	"err-quoting-big-udp-cut-at-scmp-limit", "err-quoting-cut-scion-header"}
 
 func be16(v int) []byte { return []byte{byte(v >> 8), byte(v)} }
 
@@ -347,6 +351,37 @@ func mkPkt(r *vlib.Rand, kind, port int, d dstFacts) *pkt {
 		p.l4 = errMsg(r.Bytes(1 + r.Intn(11))) // shorter than a SCION common header
 	case kErrUDPTrunc:
 		p.l4 = errMsg(quoted(17, udpHdr(r, port, other())[:r.Intn(8)]))
+	case kErrUDPCutPayload:
+		// the quote ends inside the UDP payload: the UDP header is intact, so the source port is
+		// there to be used (only a missing/short UDP HEADER makes it unavailable)
+		ql4 := append(udpHdr(r, port, other())[:8], r.Bytes(8+r.Intn(40))...)
+		ql4[4], ql4[5] = byte(len(ql4)>>8), byte(len(ql4))
+		q := quoted(17, ql4)
+		cut := 1 + r.Intn(len(ql4)-8) // bytes of payload removed, at least one, at most all
+		p.l4, p.quote = errMsg(q[:len(q)-cut]), fmt.Sprintf("u:%d", port)
+		p.derived = port
+		if port == 0 {
+			p.derived, p.guard = -1, true
+		}
+	case kErrUDPCutBig:
+		// a 1400-byte datagram quoted up to the SCMP size limit (what a router emits for a
+		// realistic large offending packet)
+		ql4 := append(udpHdr(r, port, other())[:8], r.Bytes(1392)...)
+		ql4[4], ql4[5] = byte(len(ql4)>>8), byte(len(ql4))
+		q := quoted(17, ql4)
+		room := 1232 - 36 - 4 - errHdrLen(errT) // SCMP limit minus outer SCION header (IPv4 hosts), SCMP header
+		if room < len(q) {
+			q = q[:room]
+		}
+		p.l4, p.quote = errMsg(q), fmt.Sprintf("u:%d", port)
+		p.derived = port
+		if port == 0 {
+			p.derived, p.guard = -1, true
+		}
+	case kErrCutSCION:
+		// the quote ends inside the quoted SCION header: nothing to derive a port from
+		q := quoted(17, udpHdr(r, port, other()))
+		p.l4 = errMsg(q[:12+r.Intn(24)]) // quoted header is 36 bytes
 	case kSCMPUnknown:
 		t := []int{0, 3, 7, 100, 127, 132, 200, 255}[r.Intn(8)]
 		p.l4 = scmpMsg(t, 0, append(r.Bytes(4), quoted(17, udpHdr(r, port, other()))...))
@@ -401,6 +436,10 @@ func genPkt(r *vlib.Rand, port, s, e int, cs []call) *pkt {
 		kind = kErrEchoReq
 	case x < 59:
 		kind = kErrTrReq
+	case x < 64:
+		kind = kErrUDPCutPayload
+	case x < 66:
+		kind = kErrUDPCutBig
 	default:
 		kind = kEchoReq + r.Intn(numKinds-kEchoReq)
 	}
